@@ -593,7 +593,17 @@ struct MpSession : public vw::Session {
   // a payload the active ALT chain contains AND that is effective there: for a VTB the containing VBK block must be
   // on the VBK best chain of the instance (on a losing VBK fork the VTB is un-applied in the VBK tree, the library's
   // duplicate search cannot see it and accepts a re-announcement - observed on the unchanged tree, counted)
-  bool mustBeForgotten(Instance& I, const ATV& a) { return onActiveChain(I, a.getId()); }
+  // for an ATV the endorsed block must still be in memory: once finalization deallocated it, the library can neither
+  // find the old containing block (its duplicate search covers the settlement window below the tip) nor tell that
+  // the endorsement expired, and accepts a re-announcement (observed on the unchanged tree, counted); the stateful
+  // filter of generatePopData refuses such an ATV, and the properties allow a RESUBMITTED payload to be known again
+  bool mustBeForgotten(Instance& I, const ATV& a) {
+    if (!onActiveChain(I, a.getId())) return false;
+    auto eh = I.tree.getParams().getHash(a.transaction.publicationData.header);
+    if (I.tree.getBlockIndex(eh) != nullptr) return true;
+    notes.push_back("onchain-atv-endorsed-block-deallocated " + idname(*reg, a.getId()));
+    return false;
+  }
   bool mustBeForgotten(Instance& I, const VTB& w) {
     if (!onActiveChain(I, w.getId())) return false;
     auto* c = I.tree.vbk().getBlockIndex(w.containingBlock.getHash());
